@@ -42,6 +42,11 @@ Theorem C16_order_list_case_insensitive : forall s t,
 Proof. exact canonical_key_case_insensitive. Qed.
 Print Assumptions C16_order_list_case_insensitive.
 
+Theorem C16_pseudo_order_list_case_insensitive : forall s t,
+  is_pseudo_name s = true -> to_lower s = to_lower t -> canonical_key s = canonical_key t.
+Proof. exact canonical_key_pseudo_case_insensitive. Qed.
+Print Assumptions C16_pseudo_order_list_case_insensitive.
+
 Theorem C16_listed_before_unlisted : forall kvs order p q a b,
   nth_error (sort_key_values kvs order) p = Some a ->
   nth_error (sort_key_values kvs order) q = Some b ->
